@@ -7,7 +7,11 @@ fn emit_condition(
     match condition {
         Condition::Bool(value) => out.push(json!(value)),
         Condition::FunctionCall(name) => {
-            out.push(json!({"f()": name}));
+            if context.external_functions.contains(name) {
+                out.push(json!({"x()": name}));
+            } else {
+                out.push(json!({"f()": name}));
+            }
         }
         Condition::Expression(Expression::Variable(name))
             if scope.resolve_choice_label(name).is_some() =>
